@@ -86,7 +86,8 @@ func (k Keeper) CalculateReward(ctx sdk.Context, addr sdk.AccAddress, id uint64)
 			// Voter info exists for this past dispute
 			addrReporterPower = addrReporterPower.Add(pastVoterInfo.ReporterPower)
 			addrTokenholderPower = addrTokenholderPower.Add(pastVoterInfo.TokenholderPower)
-			userTips, err := k.GetUserTotalTips(ctx, addr, pastId)
+			// user power was recorded from the tips at the dispute's block (msg_server_vote), the same block in every round
+			userTips, err := k.GetUserTotalTips(ctx, addr, dispute.BlockNumber)
 			if err != nil {
 				return math.Int{}, err
 			}
